@@ -2,7 +2,13 @@
 """Copies confirmed seeded changes from the agents' worktrees into /verif/seeded/<id>-<X>/ with meta.json.
 Input: the logs written by tools/confirm_seeded.sh (sections '=== <id> <X>' ... 'RESULT ...')."""
 import json, os, re, shutil, sys
-logs = sys.argv[1:]
+# usage: record_seeded.py [--src '/tmp/w2-{pid}/_mutation/{x}'] [--rename A=C,B=D] logs...
+args = sys.argv[1:]; SRC = '/tmp/wt-{pid}/_mutation/{x}'; REN = {}
+while args and args[0].startswith('--'):
+    if args[0] == '--src': SRC = args[1]
+    if args[0] == '--rename': REN = dict(kv.split('=') for kv in args[1].split(','))
+    args = args[2:]
+logs = args
 text = ''.join(open(l).read() for l in logs)
 out = {}
 for m in re.finditer(r'=== (C\d+) ([A-Z])\n(.*?)(?==== |\Z)', text, re.S):
@@ -12,8 +18,8 @@ for m in re.finditer(r'=== (C\d+) ([A-Z])\n(.*?)(?==== |\Z)', text, re.S):
     classes = re.findall(r'class=(\S+)', body)
     out[(pid, x)] = dict(tests=r.group(1), demo_mut=int(r.group(2)), demo_clean=int(r.group(3)), check_exit=int(r.group(4)), classes=classes)
 for (pid, x), v in sorted(out.items()):
-    src = f'/tmp/wt-{pid}/_mutation/{x}'
-    dst = f'/verif/seeded/{pid}-{x}'
+    src = SRC.format(pid=pid, x=x)
+    dst = f'/verif/seeded/{pid}-{REN.get(x, x)}'
     confirmed = v['tests'].startswith('100% tests passed') and v['demo_mut'] != 0 and v['demo_clean'] == 0
     if not confirmed:
         print(f'{pid}-{x}: NOT confirmed {v}'); continue
